@@ -5,7 +5,7 @@ from .core import *
 
 REPO = os.environ.get('POLAR_REPO', '/repo')
 Z3_TIMEOUT_MS = int(os.environ.get('PYVC_Z3_TIMEOUT_MS', '20000'))
-z3.set_param('memory_max_size', int(os.environ.get('PYVC_Z3_MEM_MB', '3000')))
+z3.set_param('memory_max_size', int(os.environ.get('PYVC_Z3_MEM_MB', '2000')))
 CVC5_TIMEOUT_MS = int(os.environ.get('PYVC_CVC5_TIMEOUT_MS', '60000'))
 
 REGISTRY = {}          # name -> (file, qual, props, builder)
@@ -178,6 +178,19 @@ def discharge(axioms, o, want_model=True, split_first=False):
     """returns (verdict, backend, seconds, model|None, reason)"""
     t0 = time.time()
     if split_first and _split_attempt(axioms, o): return 'discharged', 'z3', time.time() - t0, None, ''
+    # the plain query first, short (without the ground membership instances): 'unsat' is a proof (fewer hypotheses); 'sat' is a genuine
+    # counter-model only when no membership predicate occurs (their converse axiom 'an element is a member' exists only as ground instances)
+    try:
+        s_ = z3.Solver(); s_.set('timeout', min(5000, Z3_TIMEOUT_MS))
+        for a in axioms: s_.add(a)
+        for p in o.pc: s_.add(p)
+        s_.add(z3.Not(o.goal))
+        r_ = s_.check()
+        if r_ == z3.unsat: return 'discharged', 'z3', time.time() - t0, None, ''
+        if r_ == z3.sat and not mem_instances(list(axioms) + list(o.pc) + [z3.Not(o.goal)]):
+            return 'refuted', 'z3', time.time() - t0, s_.model(), ''
+    except z3.Z3Exception:
+        pass
     s = z3.Solver(); s.set('timeout', Z3_TIMEOUT_MS)
     for a in axioms: s.add(a)
     for p in o.pc: s.add(p)
@@ -313,8 +326,16 @@ def verify_one(key):
                 else: rec['reachable_paths'] += 1
         if rec['reachable_paths'] == 0 and rec['status'] == 'ok':
             rec['status'] = 'vacuous'; rec['reason'] = 'no exit of the function is reachable under the contract'
+        solver_failed = None
         for o in obls:
-            verdict, backend, dt, model, reason = discharge(axioms, o, split_first=bool(cx.d.get('split_first')))
+            if solver_failed:
+                verdict, backend, dt, model, reason = 'unknown', 'z3', 0.0, None, f'not attempted: {solver_failed}'
+            else:
+                try:
+                    verdict, backend, dt, model, reason = discharge(axioms, o, split_first=bool(cx.d.get('split_first')))
+                except z3.Z3Exception as zex:      # a solver resource failure is 'unknown' for this and the remaining obligations of the function
+                    solver_failed = f'solver failure at {o.name}: {zex}'
+                    verdict, backend, dt, model, reason = 'unknown', 'z3', 0.0, None, solver_failed
             rec['solver_s'] += dt
             orec = dict(name=o.name, kind=o.kind, line=o.line, verdict=verdict, backend=backend, s=round(dt, 3))
             if verdict == 'refuted':
